@@ -186,7 +186,7 @@ fn c01() -> Check {
         engine: "syssim",
         level: "exploration",
         families: vec![Box::new(C01Family)],
-        required_probes: vec!["entry:TCP-port remote", "entry:Unix-socket remote", "entry:SOCKS4", "entry:SOCKS4a", "entry:SOCKS5/IPv4", "entry:SOCKS5/domain", "entry:SOCKS5/IPv6", "entry:HTTP CONNECT", "client-half-closed-first", "target-half-closed-first", "target-refused-or-closed-early", "client-closed-on-silent-target", "udp-via-socks5", "udp-via-remote", "udp-payload-under-4-bytes", "concurrent-udp-clients", "one-association-several-targets"],
+        required_probes: vec!["entry:TCP-port remote", "entry:Unix-socket remote", "entry:SOCKS4", "entry:SOCKS4a", "entry:SOCKS5/IPv4", "entry:SOCKS5/domain", "entry:SOCKS5/IPv6", "entry:HTTP CONNECT", "client-half-closed-first", "target-half-closed-first", "target-refused-or-closed-early", "client-closed-on-silent-target", "udp-via-socks5", "udp-via-remote", "udp-payload-under-4-bytes", "concurrent-udp-clients", "one-association-several-targets", "entry:HTTP CONNECT/IPv6 literal", "target-closed-without-reading-while-uploader-out-of-credit", "fault:unparseable-datagram-to-socks5-relay", "udp-client-idle-longer-than-the-prune-timeout"],
         assumptions: vec!["UDP exchanges stay inside the prune window and below the datagram buffers, so a missing reply cannot be excused in fault-free configurations", "the SOCKS5 UDP reply header is only required to be well-formed per RFC 1928 and to carry the payload (the statement does not fix its address fields)", "TLS not simulated (ws://)"],
         real: vec!["penguin client: client_main_inner, handle_tcp/udp/socks/http, UDP client-id maps, bridges", "penguin server: run_listener, hyper serve_connection_with_upgrades, State service, handle_websocket, tcp_forwarder_on_channel, udp_forward_on", "tokio-tungstenite both sides", "penguin-mux + penguin-socks + hyper (CONNECT)"],
         stub: vec!["tokio::net (penguin-simnet)", "local clients (written against RFC 1928 / SOCKS4a / HTTP CONNECT)", "targets", "clock (paused), scheduler RNG (seeded)"],
@@ -299,8 +299,8 @@ fn c14() -> Check {
         engine: "syssim",
         level: "exploration",
         families: vec![Box::new(C14Family { enumerate: true }), Box::new(C14Family { enumerate: false })],
-        required_probes: vec!["answered-101", "tunnel-started-after-101", "refusal-compared-with-twin", "one-byte-fragments", "obfs-health-or-version"],
-        assumptions: vec!["the decisive dimension is an input/configuration matrix; the simulator contributes the live HTTP connection without which the gate is unreachable, and the fragmentation schedule", "no backend is configured: `same as unknown path` is checked for the configured-404 case only", "cells the statement leaves open (empty Sec-WebSocket-Key, a header sent twice with identical values) may go either way but a refusal must still equal the twin's response", "/health and /version are judged only with obfuscation on"],
+        required_probes: vec!["answered-101", "tunnel-started-after-101", "refusal-compared-with-twin", "one-byte-fragments", "obfs-health-or-version", "refusal-served-by-backend", "backend-down-falls-back-to-404"],
+        assumptions: vec!["the decisive dimension is an input/configuration matrix; the simulator contributes the live HTTP connection without which the gate is unreachable, and the fragmentation schedule", "`same as an unknown path` is checked with no backend (configured 404), with a backend that answers (raw HTTP/1.1 server on the simulated network, reached through the guarded connector hook) and with a backend that is configured but down; plain-HTTP backends only", "cells the statement leaves open (empty Sec-WebSocket-Key, a header sent twice with identical values) may go either way but a refusal must still equal the twin's response", "/health and /version are judged only with obfuscation on"],
         real: vec!["penguin server: run_listener, hyper auto::Builder serve_connection_with_upgrades, IoWithTimeout, State service (path routing, ws_handler gate, 404 handler), handle_websocket after the upgrade", "tokio-tungstenite + penguin-mux client on the upgraded socket"],
         stub: vec!["tokio::net (penguin-simnet)", "the HTTP client (raw HTTP/1.1 bytes, fragmented)", "clock, scheduler RNG"],
     }
